@@ -36,6 +36,10 @@ pub fn install_panic_hook() {
         } else {
             "panic".to_string()
         };
+        if loc.starts_with("props/") || loc.starts_with("main.rs") || loc.starts_with("explore.rs") || loc.starts_with("report.rs") || loc.starts_with("sup.rs") || std::env::var("HCVERIF_DEBUG_PANIC").is_ok() {
+            // a panic in the harness's own code is a machinery error: make it visible
+            eprintln!("harness panic at {loc}: {msg}");
+        }
         LAST_PANIC.with(|l| *l.borrow_mut() = Some(format!("{loc}: {msg}")));
     }));
 }
